@@ -54,7 +54,10 @@ def run(ctx):
                      ["StepGuard", "EvalFrozen", "ParamsOnlyInStep", "StatsOnlyInTrainFwd"],
                      mutate("Trainer", "  /\\ phase = \"train\" /\\ fwd /\\ zeroed /\\ ~bwdone /\\ gmode", "  /\\ phase = \"train\" /\\ fwd /\\ ~bwdone /\\ gmode"), ["StepGuard"])
     expect_violation(rep, "validation-leaves-no-grad-on", "Trainer", dict(Cfgs=cfgs), ["StepCount", "HistLen", "GradModeRestored"], [],
-                     mutate("Trainer", "  /\\ ngdepth' = 0 /\\ gmode' = TRUE ", "  /\\ ngdepth' = 0 /\\ gmode' = FALSE "), ["GradModeRestored"])
+                     mutate("Trainer", "  /\\ ngdepth' = 0 /\\ gmode' = saved ", "  /\\ ngdepth' = 0 /\\ gmode' = FALSE "), ["GradModeRestored"])
+    # the mode restored is the one found on entry, not "enabled": test() inside the caller's own no_grad block
+    expect_violation(rep, "validation-restores-enabled-instead-of-found", "Trainer", dict(Cfgs=cfgs), ["StepCount", "HistLen", "GradModeRestored"], [],
+                     mutate("Trainer", "  /\\ ngdepth' = 0 /\\ gmode' = saved ", "  /\\ ngdepth' = 0 /\\ gmode' = TRUE "), ["GradModeRestored"])
     idc = dict(Family="id", MaxBasis=4, WithGrad=False, Sizes={1, 2}, MaxRank=2, Axis2Set=tlc.Raw("{<<3,2,1,0,1>>, <<4,2,1,1,2>>}"), NCSet=tlc.Raw("{<<1,1,1>>}"))
     expect_violation(rep, "mean-divides-by-wrong-count", "Identities", idc, ["IdentityHolds"], [],
                      mutate("TensorAlg", "Mono(<<1, Len(G[j])>>, <<<<1, G[j][t], 1>>>>)", "Mono(<<1, Len(G[j]) + 1>>, <<<<1, G[j][t], 1>>>>)"), ["IdentityHolds"])
